@@ -89,7 +89,7 @@ class ZOps:
         return 7 * n + 3
 
 
-def ev(t, ops, fld, scl, red):
+def ev(t, ops, fld, scl, red, loc=0):
     k = t[0]
     if k == "fld":
         return fld(t[1])
@@ -97,12 +97,14 @@ def ev(t, ops, fld, scl, red):
         return scl[t[1]]
     if k == "red":
         return red
+    if k == "loc":
+        return loc
     if k == "lit":
         return t[1]
     if k == "neg":
-        return -ev(t[1], ops, fld, scl, red)
+        return -ev(t[1], ops, fld, scl, red, loc)
     if k == "bin":
-        a, b = ev(t[2], ops, fld, scl, red), ev(t[3], ops, fld, scl, red)
+        a, b = ev(t[2], ops, fld, scl, red, loc), ev(t[3], ops, fld, scl, red, loc)
         if t[1] == "OAdd":
             return a + b
         if t[1] == "OSub":
@@ -114,7 +116,7 @@ def ev(t, ops, fld, scl, red):
         if t[1] == "OPow":
             return ops.pow(a, b)
     if k == "fn2":
-        a, b = ev(t[2], ops, fld, scl, red), ev(t[3], ops, fld, scl, red)
+        a, b = ev(t[2], ops, fld, scl, red, loc), ev(t[3], ops, fld, scl, red, loc)
         if t[1] == "FSign":
             return abs(a) if b >= 0 else -abs(a)
         if t[1] == "FMax":
@@ -122,7 +124,7 @@ def ev(t, ops, fld, scl, red):
         if t[1] == "FMin":
             return min(a, b)
     if k == "conv":
-        return ops.conv(t[1], t[2], ev(t[3], ops, fld, scl, red))
+        return ops.conv(t[1], t[2], ev(t[3], ops, fld, scl, red, loc))
     raise Fault("bad tree %r" % (t,))
 
 
@@ -131,11 +133,16 @@ def bound_value(b, lay):
             "annexed": lambda: lay["annexed"], "halo": lambda: lay["undf"]}[b[0]]()
 
 
-def run_code(inst, ops, bind, lay, sched, fields, scalars, red, strict=True):
+def omp_mode(inst):
+    o = inst["omp"]
+    return False if o is None else {"pardo": True, "region": "region", "reprod": "reprod"}[o["form"]]
+
+
+def run_code(inst, ops, bind, lay, sched, fields, scalars, red, strict=True, loc0=0):
     """execute the serialised generated invoke.  fields: {fid: [values]} (index df-1); returns
     (fields', red', nrand).  strict: an access outside 1..undf is a Fault (array bounds)."""
     F = {f: list(v) for f, v in fields.items()}
-    st = {"red": red, "rcnt": 0}
+    st = {"red": red, "rcnt": 0, "loc": loc0}
     if inst["zero"]:
         st["red"] = 0
     lo, hi = bound_value(inst["lo"], lay), bound_value(inst["hi"], lay)
@@ -161,7 +168,9 @@ def run_code(inst, ops, bind, lay, sched, fields, scalars, red, strict=True):
         if kern[0] == "assign":
             put(bind[kern[1]], df, ev(kern[2], ops, fld, scalars, st["red"]))
         elif kern[0] == "reduce":
-            st["red"] = ev(kern[1], ops, fld, scalars, st["red"])
+            st["red"] = ev(kern[1], ops, fld, scalars, st["red"], st["loc"])
+        elif kern[0] == "reduce_local":
+            st["loc"] = ev(kern[1], ops, fld, scalars, st["red"], st["loc"])
         else:
             put(bind[kern[1]], df, ops.rand(st["rcnt"]))
             st["rcnt"] += 1
@@ -171,6 +180,19 @@ def run_code(inst, ops, bind, lay, sched, fields, scalars, red, strict=True):
     elif sched[0] == "perm":
         for df in sched[1]:
             iteration(df)
+    elif inst["omp"] and inst["omp"].get("reprod") is not None:
+        # reproducible reduction: l_red(1,t) zeroed (if the code does so), thread t accumulates its chunk
+        # there, afterwards the elements are added to the reduction variable (if the code does so)
+        rp = inst["omp"]["reprod"]
+        partial = []
+        for ch in sched[1]:
+            st["loc"] = 0 if rp["zeroed"] else loc0
+            for df in ch:
+                iteration(df)
+            partial.append(st["loc"])
+        if rp["final_sum"]:
+            for v in partial:
+                st["red"] = st["red"] + v
     else:                                   # OpenMP threads with their chunks
         red0 = st["red"]
         if inst["omp"] and inst["omp"]["reduction"]:
@@ -265,13 +287,14 @@ def gen_case(rng, inst, doc, targeted=None):
         lo, hi = bound_value(inst["lo"], lay), bound_value(inst["hi"], lay)
         it = list(range(lo, hi + 1))
         rng.shuffle(it)
-        if inst["kern"][0] == "reduce":
-            nt = rng.choice([1, 2, 3, 4])
+        if inst["kern"][0] in ("reduce", "reduce_local"):
+            nt = rng.choice([1, 2, 3] if inst["kern"][0] == "reduce_local" else [1, 2, 3, 4])
             cuts = sorted(rng.randint(0, len(it)) for _ in range(nt - 1))
             sched = ("chunks", [it[a:b] for a, b in zip([0] + cuts, cuts + [len(it)])])
         else:
             sched = ("perm", it)
-    return {"bind": bind, "layout": lay, "fields": fields, "scalars": scalars, "red": red, "sched": sched}
+    return {"bind": bind, "layout": lay, "fields": fields, "scalars": scalars, "red": red, "sched": sched,
+            "loc0": rng.choice([0, 9])}
 
 
 def check_case(inst, doc, case):
@@ -283,7 +306,7 @@ def check_case(inst, doc, case):
     except Fault:
         return "skip"
     try:
-        got_f, got_red, nr = run_code(inst, ops, case["bind"], case["layout"], case["sched"], case["fields"], case["scalars"], case["red"])
+        got_f, got_red, nr = run_code(inst, ops, case["bind"], case["layout"], case["sched"], case["fields"], case["scalars"], case["red"], loc0=case.get("loc0", 0))
     except Fault as f:
         return {"why": "generated code faults where the documented formula is defined: %s" % f}
     if rnd is not None:
@@ -316,7 +339,7 @@ def dm_global_case(rng, inst, doc):
     for _ in range(rng.choice([1, 2, 3])):
         c = gen_case(rng, inst, doc)
         try:
-            _, r, _ = run_code(inst, ExactOps, c["bind"], c["layout"], c["sched"], c["fields"], c["scalars"], c["red"])
+            _, r, _ = run_code(inst, ExactOps, c["bind"], c["layout"], c["sched"], c["fields"], c["scalars"], c["red"], loc0=c.get("loc0", 0))
             lay_owned = dict(c["layout"])
             _, e, _ = run_doc(doc, ExactOps, True, inst["ann"], c["bind"], lay_owned, c["fields"], c["scalars"], c["red"])
         except Fault:
@@ -341,16 +364,16 @@ Open Scope Z_scope.
 Definition xops : ops := mkOps Z.quot Z.pow
   (fun c k z => 2 * z + (match c with CvInt => 1 | CvReal => 0 end) + (match k with KLhs => 0 | KName _ => 10 end))
   (fun n => 7 * Z.of_nat n + 3).
-Definition xstore (fl : list (list Z)) (sc : list Z) (r : Z) : store :=
-  mkStore (fun f d => if d <=? 0 then 0 else nth (Z.to_nat (d - 1)) (nth f fl []) 0) (fun k => nth k sc 0) r 0.
-Definition xcase := (instance * list nat * (Z * Z * Z) * schedule * list (list Z) * list Z * Z * (list (list Z) * Z))%type.
+Definition xstore (fl : list (list Z)) (sc : list Z) (r l : Z) : store :=
+  mkStore (fun f d => if d <=? 0 then 0 else nth (Z.to_nat (d - 1)) (nth f fl []) 0) (fun k => nth k sc 0) r l 0.
+Definition xcase := (instance * list nat * (Z * Z * Z) * schedule * list (list Z) * list Z * (Z * Z) * (list (list Z) * Z))%type.
 Fixpoint row_ok (s : store) (f : nat) (d : Z) (row : list Z) : bool :=
   match row with [] => true | v :: r => (fdat s f d =? v) && row_ok s f (d + 1) r end.
 Fixpoint rows_ok (s : store) (f : nat) (rows : list (list Z)) : bool :=
   match rows with [] => true | row :: r => row_ok s f 1 row && rows_ok s (S f) r end.
 Definition agrees (c : xcase) : bool :=
-  match c with (i, bl, (u, o, a), sch, fl, sc, r, (efl, er)) =>
-    let s' := run_instance xops (fun k => nth k bl 0%nat) (mkLayout u o a (fun _ => u)) i sch (xstore fl sc r) in
+  match c with (i, bl, (u, o, a), sch, fl, sc, (r, l), (efl, er)) =>
+    let s' := run_instance xops (fun k => nth k bl 0%nat) (mkLayout u o a (fun _ => u)) i sch (xstore fl sc r l) in
     rows_ok s' 0 efl && (rvar s' =? er)
   end.
 """
@@ -370,9 +393,9 @@ def coq_case(inst, case, got_f, got_red):
     sc = zl([case["scalars"].get(k, 0) for k in range(nargs)])
     s = case["sched"]
     sch = "SSerial" if s is None else ("(SPerm %s)" % zl(s[1]) if s[0] == "perm" else "(SChunks [%s])" % "; ".join(zl(c) for c in s[1]))
-    return "(inst_%s_%s, %s, ((%d), (%d), (%d)), %s, %s, %s, (%d), (%s, (%d)))" % (
-        T.cid(inst["name"]), T.setting_tag(inst["dm"], inst["ann"], inst["omp"] is not None), bl,
-        lay["undf"], lay["owned"], lay["annexed"], sch, fl, sc, case["red"], efl, got_red)
+    return "(inst_%s_%s, %s, ((%d), (%d), (%d)), %s, %s, %s, ((%d), (%d)), (%s, (%d)))" % (
+        T.cid(inst["name"]), T.setting_tag(inst["dm"], inst["ann"], omp_mode(inst)), bl,
+        lay["undf"], lay["owned"], lay["annexed"], sch, fl, sc, case["red"], case.get("loc0", 0), efl, got_red)
 
 
 # ------------------------------------------------------------------------------------------------
@@ -384,17 +407,20 @@ def jsonable_case(inst, doc, case):
             "argument_binding(arg position -> field id)": {str(k): v for k, v in case["bind"].items()},
             "layout": case["layout"], "fields": {str(k): [str(x) for x in v] for k, v in case["fields"].items()},
             "scalars": {str(k): str(v) for k, v in case["scalars"].items()}, "reduction_variable_before": case["red"],
+            "local_array_garbage_if_not_zeroed": case.get("loc0", 0),
             "schedule": case["sched"]}
 
 
 REPLAY_HOW = ("write an algorithm file with `call invoke(<builtin>(<one variable per argument>))`, parse it with "
               "psyclone.parse.algorithm.parse(api='dynamo0.3'), set Config.get().api_conf('lfric')._compute_annexed_dofs, "
-              "PSyFactory('dynamo0.3', distributed_memory=<dm>).create(info) [+ DynamoOMPParallelLoopTrans on the DoF loop], "
+              "PSyFactory('dynamo0.3', distributed_memory=<dm>).create(info) [+ DynamoOMPParallelLoopTrans on the DoF loop, or "
+              "Dynamo0p3OMPLoopTrans (options {'reprod': True} for form 'reprod') + OMPParallelTrans around it], "
               "read the DO loop of str(psy.gen) and execute it on the listed field values (or: VERIF_REPO=<tree> ./check C20)")
 
 
 def run(ctx):
-    ctx.cov["rule"] = ("every class in BUILTIN_MAP x {DM off/on} x {COMPUTE_ANNEXED_DOFS off/on} x {serial, DynamoOMPParallelLoopTrans}; "
+    ctx.cov["rule"] = ("every class in BUILTIN_MAP x {DM off/on} x {COMPUTE_ANNEXED_DOFS off/on} x {serial, OMP PARALLEL DO, OMP PARALLEL + OMP DO} "
+                       "and every reduction built-in additionally with run-reproducible OpenMP reductions (1-3 simulated threads); "
                        "per instance random exact inputs: undf 0..7, owned<=annexed<=undf, integer field values -4..4 (non-zero when the "
                        "formula divides or raises to a power), argument aliasing with probability 1/4, non-zero initial reduction variable, "
                        "random OpenMP permutation / chunking; non-trivial = documented range non-empty; distinct = (instance, input)")
@@ -430,6 +456,7 @@ def run(ctx):
             % (len(table), len(insts), len(doc), len(res["index"]), res["changed"]))
     rejected = sorted("%s/%s" % (k[0], T.setting_tag(*k[1:])) for k, v in insts.items() if "rejected" in v)
     ctx.notes["omp_rejected_by_transformation"] = rejected
+    ctx.notes["openmp_variants_translated"] = {k: len(v) for k, v in res["omp_names"].items()}
     ctx.notes["doc_entries_unparseable"] = []          # fail-closed: any such entry aborts the translation above
     ctx.notes["meta_comment_lines_recognised_verbatim"] = sorted(
         n for n, m in res["meta"].items() if n in doc and T.meta_comment_spec(n, m, doc[n])[1].startswith("free-form"))
@@ -455,7 +482,7 @@ def run(ctx):
     names_without_doc = [n for n, _, _ in table if n not in doc]
     xr = ctx.rng("xpick")
     xpick = {n: xr.sample(T.SETTINGS, 2) for n, _, _ in table}
-    for (name, dm, ann, omp), inst in sorted(insts.items(), key=lambda kv: (kv[0][0], kv[0][1:])):
+    for (name, dm, ann, omp), inst in sorted(insts.items(), key=lambda kv: (kv[0][0], kv[0][1], kv[0][2], T.OMP_CODE[kv[0][3]])):
         if "rejected" in inst or name not in doc:
             continue
         d = doc[name]
@@ -485,11 +512,14 @@ def run(ctx):
                     failures.append((inst, d, None, r))
         # one case per chosen instance goes to the Coq model (interpreter / emitter cross-check);
         # quick tier: two of the eight settings of every built-in (seeded), thorough: all
-        if not ctx.thorough and (dm, ann, omp) not in xpick[name]:
+        if not ctx.thorough and omp != "reprod" and (dm, ann, omp) not in xpick[name]:
             continue
         case = gen_case(rng, inst, d)
         try:
-            gf, gr, _ = run_code(inst, ZOps, case["bind"], case["layout"], case["sched"], case["fields"], case["scalars"], case["red"], strict=False)
+            gf, gr, _ = run_code(inst, ZOps, case["bind"], case["layout"], case["sched"], case["fields"], case["scalars"], case["red"],
+                                 strict=False, loc0=case.get("loc0", 0))
+            if inst["kern"][0] == "reduce_local" and (inst["omp"] is None or inst["omp"].get("reprod") is None):
+                raise Fault("thread-local accumulation outside the reproducible scheme")
             if inst["kern"][0] == "reduce" and inst["omp"] is not None and not inst["omp"]["reduction"]:
                 raise Fault("racy")
             xcases.append(coq_case(inst, case, gf, gr))
@@ -497,9 +527,10 @@ def run(ctx):
         except Fault:
             pass
     if res["instances"]:
-        k0 = sorted(k for k, v in insts.items() if "rejected" not in v and k[0] in doc)[0]
+        skey = lambda k: (k[0], k[1], k[2], T.OMP_CODE[k[3]])                                    # noqa: E731
+        k0 = sorted((k for k, v in insts.items() if "rejected" not in v and k[0] in doc), key=skey)[0]
         ctx.sample(jsonable_case(insts[k0], doc[k0[0]], gen_case(ctx.rng("sample"), insts[k0], doc[k0[0]], targeted=3)))
-        kr = [k for k, v in insts.items() if "rejected" not in v and k[0] in doc and v["kern"][0] == "reduce" and k[1] and k[3]]
+        kr = sorted((k for k, v in insts.items() if "rejected" not in v and k[0] in doc and v["kern"][0] == "reduce_local" and k[1]), key=skey)
         if kr:
             ctx.sample(jsonable_case(insts[kr[0]], doc[kr[0][0]], gen_case(ctx.rng("sample2"), insts[kr[0]], doc[kr[0][0]], targeted=4)))
     # ------------------------------------------------------------------ interpreter == Coq model on the generated instances
@@ -526,7 +557,7 @@ def run(ctx):
             continue
         reported.add(key)
         body = {"property": "C20", "what": r["why"], "builtin": inst["name"],
-                "setting": T.setting_tag(inst["dm"], inst["ann"], inst["omp"] is not None), "result": r, "replay": REPLAY_HOW}
+                "setting": T.setting_tag(inst["dm"], inst["ann"], omp_mode(inst)), "result": r, "replay": REPLAY_HOW}
         if case is not None:
             body["input"] = jsonable_case(inst, d, case)
         else:
@@ -551,8 +582,8 @@ def run(ctx):
 
 
 def untag(tag):
-    m = re.fullmatch(r"dm(\d)_ann(\d)(_omp)?", tag)
-    return (m.group(1) == "1", m.group(2) == "1", bool(m.group(3)))
+    m = re.fullmatch(r"dm(\d)_ann(\d)(_omp|_ompregion|_ompreprod)?", tag)
+    return (m.group(1) == "1", m.group(2) == "1", {None: False, "_omp": True, "_ompregion": "region", "_ompreprod": "reprod"}[m.group(3)])
 
 
 # ------------------------------------------------------------------------------------------------
@@ -605,14 +636,16 @@ def replay(ctx, path):
     if not inp:
         print("replay file has no concrete input:", rec.get("broken"))
         return 1
-    key = (inp["builtin"], inp["distributed_memory"], inp["compute_annexed_dofs"], inp["openmp"] is not None)
+    o = inp["openmp"]
+    key = (inp["builtin"], inp["distributed_memory"], inp["compute_annexed_dofs"],
+           False if o is None else {"pardo": True, "region": "region", "reprod": "reprod"}[o["form"]])
     inst = res["instances"][key]
     d = {e["name"]: e for e in res["doc"]}[inp["builtin"]]
     sched = inp["schedule"]
     case = {"bind": {int(k): v for k, v in inp["argument_binding(arg position -> field id)"].items()}, "layout": inp["layout"],
             "fields": {int(k): [Fraction(x) for x in v] for k, v in inp["fields"].items()},
             "scalars": {int(k): Fraction(v) for k, v in inp["scalars"].items()}, "red": inp["reduction_variable_before"],
-            "sched": None if sched is None else (sched[0], sched[1])}
+            "sched": None if sched is None else (sched[0], sched[1]), "loc0": inp.get("local_array_garbage_if_not_zeroed", 0)}
     r = check_case(inst, d, case)
     print("generated loop body now:", inst.get("body_text"), "| bounds:", inst["lo"], inst["hi"])
     print("property on the recorded input:", "HOLDS" if r is None else r)
